@@ -13,6 +13,22 @@ use std::io::Write;
 
 pub const KINDS: &[&str] = &["c09", "c09iter"];
 
+#[cfg(verif_h9)]
+fn twise_log_start() {
+    ddnnife::ddnnf::anomalies::t_wise_sampling::verif_twise::verif_twise_log_start();
+}
+#[cfg(verif_h9)]
+fn twise_log_take() -> Option<Vec<String>> {
+    Some(ddnnife::ddnnf::anomalies::t_wise_sampling::verif_twise::verif_twise_log_take())
+}
+// hook H9 (repo_patches/H9-twise-choice-log.patch) absent: no replay, post-condition check only
+#[cfg(not(verif_h9))]
+fn twise_log_start() {}
+#[cfg(not(verif_h9))]
+fn twise_log_take() -> Option<Vec<String>> {
+    None
+}
+
 fn cfgs_text(cfgs: &[Vec<i32>]) -> String {
     cfgs.iter().map(|c| join(c)).collect::<Vec<_>>().join(" ; ")
 }
@@ -113,7 +129,20 @@ fn run_twise(ctx: &Ctx, out: &mut dyn Write) {
                 for t in 1..=tmax_for(inp.n, quick) {
                     for _ in 0..reps {
                         writeln!(s, "op twise {} plain", t).unwrap();
-                        match guarded(|| result_text(&d.sample_t_wise(t))) {
+                        twise_log_start();
+                        let res = guarded(|| result_text(&d.sample_t_wise(t)));
+                        // hook H9: the order decisions of this run (hash-set iteration, sort ties,
+                        // shuffle, trim), replayed by chk_c09 as the oracles of the extracted model
+                        match twise_log_take() {
+                            Some(log) => {
+                                writeln!(s, "olog {}", log.len()).unwrap();
+                                for l in log {
+                                    writeln!(s, "o {}", l).unwrap();
+                                }
+                            }
+                            None => writeln!(s, "olog absent").unwrap(),
+                        }
+                        match res {
                             Ok(r) => writeln!(s, "r {}", r).unwrap(),
                             Err(e) => writeln!(s, "panic {}", e).unwrap(),
                         }
@@ -130,7 +159,19 @@ fn run_twise(ctx: &Ctx, out: &mut dyn Write) {
                         for _ in 0..reps {
                             writeln!(s, "op twise {} fitness {}", t, join(&f)).unwrap();
                             let msg = format!("t-wise l {} f {}", t, join(&f));
-                            match guarded(|| stream_text(&d.handle_stream_msg(&msg))) {
+                            twise_log_start();
+                            let res = guarded(|| stream_text(&d.handle_stream_msg(&msg)));
+                            // hook H9: only the trim decision and the shuffle are not determined by the input
+                            match twise_log_take() {
+                                Some(log) => {
+                                    writeln!(s, "olog {}", log.len()).unwrap();
+                                    for l in log {
+                                        writeln!(s, "o {}", l).unwrap();
+                                    }
+                                }
+                                None => writeln!(s, "olog absent").unwrap(),
+                            }
+                            match res {
                                 Ok(r) => writeln!(s, "r {}", r).unwrap(),
                                 Err(e) => writeln!(s, "panic {}", e).unwrap(),
                             }
@@ -142,6 +183,45 @@ fn run_twise(ctx: &Ctx, out: &mut dyn Write) {
         writeln!(s, "end").unwrap();
         out.write_all(s.as_bytes()).unwrap();
     }
+}
+
+/// finding K36: an and-node that lists its (variable-free) true child twice is a legal d-DNNF for the
+/// loader, but remove_unneeded removes the child's sample once per occurrence and panics
+fn run_repeated_child(out: &mut dyn Write) {
+    let lines: Vec<String> = ["nnf 4 4 2", "A 0", "L 1", "L 2", "A 4 0 0 1 2"].iter().map(|l| l.to_string()).collect();
+    let mut s = String::new();
+    writeln!(s, "case c09-repeated-child C09").unwrap();
+    writeln!(s, "info hand-made c2d file: x1 & x2 & true & true, the true node listed twice").unwrap();
+    writeln!(s, "n 2").unwrap();
+    writeln!(s, "src_count 1").unwrap();
+    writeln!(s, "src_models 3").unwrap();
+    s.push_str(&file_block("c2d", &lines));
+    match load(&lines, Some(2)) {
+        Err(e) => writeln!(s, "impl panic {}", e).unwrap(),
+        Ok(d) => {
+            s.push_str(&dump_circuit(&d));
+            for t in 1..=2 {
+                writeln!(s, "op twise {} plain", t).unwrap();
+                twise_log_start();
+                let res = guarded(|| result_text(&d.sample_t_wise(t)));
+                match twise_log_take() {
+                    Some(log) => {
+                        writeln!(s, "olog {}", log.len()).unwrap();
+                        for l in log {
+                            writeln!(s, "o {}", l).unwrap();
+                        }
+                    }
+                    None => writeln!(s, "olog absent").unwrap(),
+                }
+                match res {
+                    Ok(r) => writeln!(s, "r {}", r).unwrap(),
+                    Err(e) => writeln!(s, "panic {}", e).unwrap(),
+                }
+            }
+        }
+    }
+    writeln!(s, "end").unwrap();
+    out.write_all(s.as_bytes()).unwrap();
 }
 
 /// does `usize` subtraction panic on underflow in this build (dev profile) or wrap (release)?
@@ -204,6 +284,9 @@ fn run_iter(_ctx: &Ctx, out: &mut dyn Write) {
 pub fn run(kind: &str, ctx: &Ctx, out: &mut dyn Write) {
     match kind {
         "c09iter" => run_iter(ctx, out),
-        _ => run_twise(ctx, out),
+        _ => {
+            run_repeated_child(out);
+            run_twise(ctx, out)
+        }
     }
 }
